@@ -17,15 +17,15 @@ SPECS = {}
 SPECS["C05"] = {
     "level": "model_checking",
     "groups": [dict(LIBGO, entries=[
-        {"name": "VerifC05_FramePath", "quick": {"params": lengths(14)}, "thorough": {"params": lengths(22)}, "expect_reach": ["end", "parsed", "rejected"]},
-        {"name": "VerifC05_UnmarshalFrame", "quick": {"params": lengths(16)}, "thorough": {"params": lengths(24)}, "expect_reach": ["end", "parsed", "rejected"]},
-        {"name": "VerifC05_AddHeaders", "quick": {"params": lengths(16)}, "thorough": {"params": lengths(24)}, "expect_reach": ["end", "parsed", "rejected"]},
-        {"name": "VerifC05_StreamPath", "quick": {"params": lengths(13)}, "thorough": {"params": lengths(21)}, "expect_reach": ["end", "parsed", "rejected"]},
-        {"name": "VerifC05_ExecuteFrame", "quick": {"params": lengths(12)}, "thorough": {"params": lengths(20)}},
+        {"name": "VerifC05_FramePath", "flags": ["-unwind-violation"], "quick": {"params": lengths(14)}, "thorough": {"params": lengths(22)}, "expect_reach": ["end", "parsed", "rejected"]},
+        {"name": "VerifC05_UnmarshalFrame", "flags": ["-unwind-violation"], "quick": {"params": lengths(16)}, "thorough": {"params": lengths(24)}, "expect_reach": ["end", "parsed", "rejected"]},
+        {"name": "VerifC05_AddHeaders", "flags": ["-unwind-violation"], "quick": {"params": lengths(16)}, "thorough": {"params": lengths(24)}, "expect_reach": ["end", "parsed", "rejected"]},
+        {"name": "VerifC05_StreamPath", "flags": ["-unwind-violation"], "quick": {"params": lengths(13)}, "thorough": {"params": lengths(21)}, "expect_reach": ["end", "parsed", "rejected"]},
+        {"name": "VerifC05_ExecuteFrame", "flags": ["-unwind-violation"], "quick": {"params": lengths(12)}, "thorough": {"params": lengths(20)}},
         {"name": "VerifC05_HTTPHandler", "quick": {"params": [0, 1, 2, 3, 4], "procs": 5}, "thorough": {"params": [0, 1, 2, 3, 4, 5, 6], "procs": 7, "flags": ["-par", "2"]}},
         {"name": "VerifC05_HTTPClient", "native": False, "quick": {"params": [0, 1, 2, 3, 4, 5], "procs": 3}, "thorough": {"params": [0, 1, 2, 3, 4, 5, 6, 7], "procs": 4, "flags": ["-par", "3"]},
          "expect_reach": ["end", "rejected"]},
-        {"name": "VerifC05_NatsHandler", "quick": {"params": lengths(10)}, "thorough": {"params": lengths(16)}},
+        {"name": "VerifC05_NatsHandler", "flags": ["-unwind-violation"], "quick": {"params": lengths(10)}, "thorough": {"params": lengths(16)}},
         {"name": "VerifC05_FramedStream", "native": False, "quick": {"params": lengths(16), "procs": 4}, "thorough": {"params": lengths(24), "procs": 8}},
         {"name": "VerifC05_NatsServerFrame", "native": False, "quick": {"params": lengths(16), "procs": 4}, "thorough": {"params": lengths(24), "procs": 8}},
         {"name": "VerifC05_SubscriberCallback", "quick": {"params": lengths(16), "procs": 4}, "thorough": {"params": lengths(24), "procs": 8}},
@@ -50,7 +50,7 @@ SPECS["C04"] = {
          "expect_reach": ["end", "distinct-names", "collapsed-names"]},
         {"name": "VerifC04_AddHeaders", "quick": {"params": [0, 1, 2], "bound": 1}, "thorough": {"params": [0, 1, 2], "bound": 2}},
         {"name": "VerifC04_WireToContext", "quick": {"params": [0, 1, 2], "bound": 2}, "thorough": {"params": [0, 1, 2], "bound": 3},
-         "expect_reach": ["end", "with-cid", "with-timeout"]},
+         "expect_reach": ["end", "with-cid", "with-timeout", "timeout-changed-between-writes"]},
     ])],
     "level_text": "Bounded symbolic model checking of the real Go codec (marshalHeaders/calculateHeaderSize via FProtocol.writeHeader, readHeader/unmarshalHeaders/readPairs, getHeadersFromFrame, unmarshalFrame, addHeadersToFrame): for every map of up to n headers with arbitrary byte content and every iteration order of the Go map (independently in the size and the write loop) the bytes equal the documented v0 layout as judged by an independent reference reader, both readers return the identical map, and the payload is untouched. Outside: the Python codec (not reachable from go/ssa), more headers / longer strings than the bound.",
     "level_note": "Trusted: go/ssa, gose interpreter (path witnesses re-run natively), z3; the reference reader in the harness is the oracle for documentation/protocol.md. Stubs: fmt, logrus.",
@@ -63,6 +63,7 @@ SPECS["C09"] = {
     "level": "model_checking",
     "groups": [dict(LIBGO, entries=[
         {"name": "VerifC09_ContextRoundTrip", "quick": {"params": [0, 1], "bound": 2}, "thorough": {"params": [0, 1, 2], "bound": 2, "procs": 3}},
+        {"name": "VerifC01_ConcurrentCalls", "native": False, "quick": {"params": [0], "flags": ["-preempt", "1"]}, "thorough": {"params": [0], "flags": ["-preempt", "2"]}},
         {"name": "VerifC09_ThroughProcessor", "quick": {"params": [0], "bound": 2}, "thorough": {"params": [0], "bound": 3}, "expect_reach": ["end", "onward-call"]},
     ])],
     "level_text": "Bounded symbolic model checking of the real header path of a call (NewFContext, AddRequestHeader, SetTimeout/Timeout, FProtocol.WriteRequestHeader -> bytes -> ReadRequestHeader on the server, AddResponseHeader, WriteResponseHeader -> bytes -> ReadResponseHeader on the client): for all user header names/values (arbitrary bytes, non-reserved names), correlation ids and a set of timeouts the handler context sees exactly the user headers, cid and timeout, carries a fresh op id drawn from the local counter, the response carries the request op id and cid, every handler-set response header reaches the caller and the caller's request headers and own op id are untouched. Pub/sub uses the same ReadRequestHeader. The same obligations are also observed inside a handler behind FBaseProcessor.Process and a processor function of the generated shape (user header, correlation id, timeout from {0 = no deadline, 1 ms, 250 ms, 5 s, 1 h}, fresh op id) and in the reply frame the server produced (op id, correlation id, handler-set response header). Outside: transports (bytes moved verbatim), more/longer headers than the bound.",
@@ -99,6 +100,7 @@ SPECS["C01"] = {
         {"name": "VerifC01_NatsRouting", "native": False, "quick": {"params": [0, 1]}, "thorough": {"params": [0, 1]},
          "expect_reach": ["end", "frame-delivered", "foreign-subject", "503-delivered"]},
         {"name": "VerifC01_ConcurrentCalls", "native": False, "quick": {"params": [0], "flags": ["-preempt", "1"]}, "thorough": {"params": [0], "flags": ["-preempt", "2"]}},
+        {"name": "VerifC01_OpIDOverflow", "quick": {"params": [0, 1, 2]}, "thorough": {"params": [0, 1, 2]}},
         {"name": "VerifC01_SequentialReuse", "native": False, "quick": {"params": [0, 1, 2], "flags": ["-preempt", "2"]}, "thorough": {"params": [0, 1, 2, 3], "flags": ["-preempt", "3"]}},
         {"name": "VerifC01_AdapterCorrelation", "native": False, "quick": {"params": [0, 1, 2], "flags": ["-preempt", "1"]},
          "thorough": {"params": [0, 1, 2, 3], "flags": ["-preempt", "2", "-par", "4"], "procs": 4}, "flags": [],
@@ -145,6 +147,8 @@ SPECS["C13"] = {
          "expect_reach": ["end", "timed-out", "answered", "late-answer"]},
         {"name": "VerifC13_HTTPReturns", "native": False, "quick": {"params": [0, 1, 2], "flags": ["-preempt", "1"]}, "thorough": {"params": [0, 1, 2], "flags": ["-preempt", "2"]},
          "expect_reach": ["end", "timed-out", "connection-lost", "answered"]},
+        {"name": "VerifC13_AdapterLifecycleStall", "native": False, "quick": {"params": [0, 1], "flags": ["-preempt", "1"]}, "thorough": {"params": [0, 1], "flags": ["-preempt", "2"]},
+         "expect_reach": ["end", "stalled-close", "stalled-open"]},
         {"name": "VerifC13_NatsReturns", "native": False, "quick": {"params": [0, 1, 2], "flags": ["-preempt", "2"]}, "thorough": {"params": [0, 1, 2], "flags": ["-preempt", "3"]},
          "expect_reach": ["end", "timed-out", "answered", "stalled-flush"]},
     ])],
@@ -162,6 +166,7 @@ SPECS["C15"] = {
         {"name": "VerifC15_Monitored", "native": False, "quick": {"params": [0, 1], "flags": ["-preempt", "1"]}, "thorough": {"params": [0, 1, 2], "flags": ["-preempt", "2"]},
          "expect_reach": ["end", "second-failure-notified"]},
         {"name": "VerifC15_ReopenPolicy", "quick": {"params": [0]}, "thorough": {"params": [0]}},
+        {"name": "VerifC15_FailedCloseThenFailure", "native": False, "quick": {"params": [0, 1], "flags": ["-preempt", "1"]}, "thorough": {"params": [0, 1], "flags": ["-preempt", "2"]}},
         {"name": "VerifC15_ConcurrentOpen", "native": False, "quick": {"params": [0], "flags": ["-preempt", "2"]}, "thorough": {"params": [0], "flags": ["-preempt", "3"]}},
         {"name": "VerifC15_NatsOutage", "native": False, "quick": {"params": [0, 1], "flags": ["-preempt", "1"]}, "thorough": {"params": [0, 1], "flags": ["-preempt", "2"]}, "expect_reach": ["end", "close-during-outage"]},
         {"name": "VerifC15_RepeatedOutages", "native": False, "quick": {"params": [0, 1], "flags": ["-preempt", "1"]}, "thorough": {"params": [0, 1, 2], "flags": ["-preempt", "2"]},
@@ -209,8 +214,10 @@ SPECS["C20"] = {
         {"name": "VerifC20_ShutdownDrains", "native": False, "quick": {"params": [0, 4], "bound": 2, "flags": ["-preempt", "2", "-par", "4"], "procs": 2},
          "thorough": {"params": [0, 1, 2, 3, 4, 5], "bound": 3, "flags": ["-preempt", "2", "-par", "2"], "procs": 6},
          "expect_reach": ["end", "racing-request", "burst-exceeds-queue"]},
-        {"name": "VerifC20_ShutdownDrains", "native": False, "tiers": ["quick"], "quick": {"params": [1, 2, 3, 5], "bound": 2, "flags": ["-preempt", "1"], "procs": 4},
-         "expect_reach": ["end", "racing-request", "burst-exceeds-queue"]},
+        {"name": "VerifC20_ShutdownDrains", "native": False, "tiers": ["quick"], "quick": {"params": [1, 2, 3, 5, 6, 10], "bound": 2, "flags": ["-preempt", "1"], "procs": 6},
+         "expect_reach": ["end", "racing-request", "burst-exceeds-queue", "two-subjects"]},
+        {"name": "VerifC20_ShutdownDrains", "native": False, "tiers": ["thorough"], "thorough": {"params": [6, 7, 8, 9, 10, 11], "bound": 2, "flags": ["-preempt", "2", "-par", "2"], "procs": 6},
+         "expect_reach": ["end", "racing-request", "two-subjects"]},
     ])],
     "level_text": "Bounded symbolic execution with threads of the real fNatsServer (Serve, handler, worker, processFrame, Stop, drainNatsMessages) with a counting processor whose handler takes an arbitrary time, for workers in {1,2} x queue length in {0,1,2}, with a handler that is fast or lets 10 s of virtual time pass: r requests received before Stop is called, optionally one racing with Stop and one arriving after Stop returned: every request received before Stop is processed exactly once and its reply is published before Serve returns; the late one is not processed; the racing one at most once and answered iff processed; Stop and Serve return (no deadlock) also when the burst exceeds queue+workers. Outside: real nats.go internals.",
     "level_note": "Trusted: go/ssa, gose interpreter and scheduler model, z3. " + NATS_NOTE + SCHED_NOTE,
@@ -289,6 +296,7 @@ SPECS["C11"] = {
         dict(PARSER, entries=[
             {"name": "VerifC11_TypedefResolution", "flags": ["-unwind-violation", "-max-decisions", "1500"], "quick": {"params": [0, 1]}, "thorough": {"params": [0, 1, 2], "flags": ["-par", "6"]},
              "expect_reach": ["end", "accepted", "rejected"]},
+            {"name": "VerifC11_ReferencedIncludes", "quick": {"params": [0]}, "thorough": {"params": [0]}},
             {"name": "VerifC11_EnumNumbering", "quick": {"params": [0, 1, 2]}, "thorough": {"params": [0, 1, 2, 3]}},
             {"name": "VerifC11_TypeValidation", "quick": {"params": [0, 1, 2], "procs": 3}, "thorough": {"params": [0, 1, 2], "procs": 3}, "expect_reach": ["end", "undefined-type", "all-defined"]},
         ]),
@@ -345,6 +353,7 @@ SPECS["C03"] = {
             {"name": "VerifC03_VoidThrows", "quick": {"params": [0], "bound": 1}, "thorough": {"params": [0], "bound": 2}, "expect_reach": ["end", "void-ok", "void-declared-1", "void-declared-2"]},
             {"name": "VerifC03_PingFire", "quick": {"params": [0, 1], "bound": 1}, "thorough": {"params": [0, 1], "bound": 2}, "expect_reach": ["end", "ping", "fire"]},
             {"name": "VerifC03_ConcurrentCalls", "native": False, "flags": ["-preempt", "1"], "quick": {"params": [0]}, "thorough": {"params": [0], "flags": ["-preempt", "2"]}},
+            {"name": "VerifC03_OversizeReply", "native": False, "quick": {"params": [0]}, "thorough": {"params": [0]}},
             {"name": "VerifC03_Names", "quick": {"params": [0, 1, 2, 3], "bound": 1}, "thorough": {"params": [0, 1, 2, 3], "bound": 2}, "expect_reach": ["end", "out-of-order-ids", "typedef-enum-return"]},
         ]},
         {"program": "c02_nested", "includes": ["c02_base"], "pkg": "c02nested", "entries": [
@@ -367,7 +376,7 @@ _MORE = {
     "C01": " Added: (e) two goroutines calling through one FStandardClient over a transport that looks at the payload only after a scheduling point (each caller gets the answer to its own symbolic argument, handler sees each once); the two callers of (b) may use clones of a context implemented OUTSIDE the package (generic branch of Clone: distinct op ids), and responses may arrive one per read or coalesced into one segment.",
     "C03": " Added: the Echo entry again over thrift's COMPACT protocol (integers from -70..70 so that one- and two-byte varints of both signs occur; the JSON protocol needs library internals the engine does not interpret and stays outside); methods whose names differ only in capitalisation (fetchUrl / fetchURL), a method whose argument ids are not in declaration order (route(2: to, 1: sender)), a typedef-of-enum argument and return type, and two goroutines calling through one generated client over a transport that reads the frame late (each caller observes the value for its own argument).",
     "C04": " Added: the stream reader is also driven through a transport that hands out 1..3 bytes per Read (same map, same rest); a header block written by another implementation (any user headers, op id mandatory, correlation id and timeout optional) becomes a context whose request headers are exactly the wire map and whose response headers echo exactly op id (+ cid iff present); the response direction leaves request headers untouched.",
-    "C05": " Added: the adapter transport's read loop on an arbitrary socket stream; fNatsServer.processFrame and a subscriber callback of the generated shape on arbitrary frames; a well-formed ~110-byte request / publish frame with an arbitrary 4-byte window at every (second) offset through server -> processor -> processor function and through the subscriber callback, each followed by a well-formed message that must still be served; the HTTP handler and HTTP client transport on arbitrary bodies, and a two-way FStandardClient.Call over HTTP whose peer answers with an arbitrary decoded body incl. the empty frame; a reply or error reply that cannot be written into a bounded output buffer (any limit 1..250) leaves the processor usable (no leaked write mutex).",
+    "C05": " On the arbitrary-buffer entries exceeding the unwinding bound (400 decisions on one path; the real loops are bounded by the buffer length, at most 24) is itself reported as a violation: a receive path that does not terminate. Added: the adapter transport's read loop on an arbitrary socket stream; fNatsServer.processFrame and a subscriber callback of the generated shape on arbitrary frames; a well-formed ~110-byte request / publish frame with an arbitrary 4-byte window at every (second) offset through server -> processor -> processor function and through the subscriber callback, each followed by a well-formed message that must still be served; the HTTP handler and HTTP client transport on arbitrary bodies, and a two-way FStandardClient.Call over HTTP whose peer answers with an arbitrary decoded body incl. the empty frame; a reply or error reply that cannot be written into a bounded output buffer (any limit 1..250) leaves the processor usable (no leaked write mutex).",
     "C06": " Added: frames may be coalesced into one read segment; NATS client transport: a second request on the SAME FContext while the first is in flight is rejected and must not disturb the first, whose response (arriving afterwards) still completes it (timers fire only when nothing else can run).",
     "C07": " Added: two goroutines publishing through one scope client over a publisher that looks at the payload late (each topic receives the frame meant for it); a backlog larger than the 64-slot work queue with a slow handler (nothing dropped, order kept; NATS channel subscriptions are modelled with their drop-on-full semantics); GENERATED publisher and subscriber of the catalogue scope `Events prefix a.{user}` over a bus transport (exactly once, own operation and topic variable only, headers incl. _topic_user).",
     "C09": " Added: the handler may make an onward FStandardClient.Call with the inbound context itself or with a clone before replying (reply still carries op id, cid and the handler's response header); the same context is used for a second call after SetTimeout with nothing else touched (the second handler observes the new timeout).",
@@ -379,7 +388,7 @@ _MORE = {
     "C16": " Added: FBaseProcessor with a constructor list and 1..2 AddMiddleware calls using closures of one constructor function (each runs exactly once per request, later-added outermost); GENERATED constructors of the catalogue (client, processor, publisher, subscriber): provider middleware wraps constructor middleware, each exactly once; generated route(2: to, 1: sender): client- and server-side middleware see the arguments in the handler's parameter positions and a rewrite of one position changes exactly that parameter; two generated subscribers built from one variadic slice with spare capacity and different providers (known finding F18).",
     "C17": " Added: (b) also serialises the shared context (WriteRequestHeader / WriteResponseHeader) while another goroutine mutates it; (c) also clones a context implemented outside the package through the generic branch of Clone (original, clone and sibling carry three different op ids).",
     "C18": " Added: a field added to 2..3 unchanged fields at any id 1..6 (before, between, after) and any position of the declaration, any modifier, in structs / exceptions / arguments: breaking iff required; throws clauses of 0..2 exceptions on either side (fields of a throws clause are Optional, as the parser makes them).",
-    "C20": " The slow handler now blocks for 10 s of virtual time (instead of an instantaneous clock jump), so a Serve that stops waiting for its workers is observable.",
+    "C20": " Servers listening on TWO subjects (one subscription each, requests alternating between them) are included. The slow handler now blocks for 10 s of virtual time (instead of an instantaneous clock jump), so a Serve that stops waiting for its workers is observable.",
     "C02": " Added: c02_basic again with the `slim` generator option (Read/Write through lib/go/encoder.go); programs with includes are generated with one recursive compiler run (-r) and the catalogue declares same-named types in the including and the included program (struct Level / enum c02_base.Level, struct Label / typedef c02_base.Label).",
     "C08": " Added: one recursive run (-r) over a program that includes another one declaring a scope of the same name with a different prefix, for Java / Dart / Python: each file's publisher and subscriber use the file's own prefix.",
 }
